@@ -177,15 +177,15 @@ class MemioEngine(object):
         (address, tell, len); private attributes only as a fall-back for views
         whose public interface already refuses to answer (closed / freed)."""
         try:
-            start = obj.address - obj.tell()
+            start = int(obj.address) - int(obj.tell())
             try:
                 n = len(obj)
             except ValueError:
-                n = obj._end_address - obj._start_address
+                n = int(obj._end_address) - int(obj._start_address)
             return start, start + n
         except Exception:
             try:
-                return obj._start_address, obj._end_address
+                return int(obj._start_address), int(obj._end_address)
             except AttributeError:
                 return fallback
 
@@ -610,6 +610,13 @@ class MemioEngine(object):
                 return -t.draw(L + 3)
             return [0, L, L + 5, -L, -(L + 5), 1, -1][t.draw(7)]
         a, b = bound(), bound()
+        if t.draw(6) == 0:
+            # offsets computed with numpy (any integer type will do)
+            import numpy
+            ty = [numpy.int64, numpy.intp][t.draw(2)]
+            a = a if a is None else ty(a)
+            b = b if b is None else ty(b)
+            w.probe("numpy_slice_bounds")
         self.begin("slice", "%s[%r:%r]" % (v.name, a, b), None)
         if v.root.freed or v.closed:
             # not judged: creating a view object touches nothing
